@@ -38,6 +38,9 @@ type Entry struct {
 	AddrKey  []byte
 	// KeyPad appends junk bytes to the public key used for addressing.
 	KeyPad int
+	// Malformed: an attestation request that lacks a part ("no-target", "no-source", "no-data", "no-id") or is absent
+	// altogether ("nil"), as a client can send it.
+	Malformed string
 }
 
 // Op is one client request.
@@ -165,6 +168,23 @@ func own(b []byte) []byte {
 	return c
 }
 
+// malform removes from an attestation request the part the entry says is missing.
+func (e *Entry) malform(r *pb.SignBeaconAttestationRequest) *pb.SignBeaconAttestationRequest {
+	switch e.Malformed {
+	case "no-target":
+		r.Data.Target = nil
+	case "no-source":
+		r.Data.Source = nil
+	case "no-data":
+		r.Data = nil
+	case "no-id":
+		r.Id = nil
+	case "nil":
+		return nil
+	}
+	return r
+}
+
 func setAttID(r *pb.SignBeaconAttestationRequest, name string, key []byte) {
 	if key != nil {
 		r.Id = &pb.SignBeaconAttestationRequest_PublicKey{PublicKey: key}
@@ -223,6 +243,9 @@ func (o *Op) ExecVia(ctx context.Context, pop *Population, api signerAPI) (res *
 		name, key := e.addr(pop)
 		req := &pb.SignBeaconAttestationRequest{Domain: own(e.Domain), Data: e.attData()}
 		setAttID(req, name, key)
+		if e.Malformed != "nil" {
+			req = e.malform(req)
+		}
 		one(api.SignBeaconAttestation(ctx, req))
 	case "atts":
 		req := &pb.SignBeaconAttestationsRequest{}
@@ -231,6 +254,7 @@ func (o *Op) ExecVia(ctx context.Context, pop *Population, api signerAPI) (res *
 			name, key := e.addr(pop)
 			r := &pb.SignBeaconAttestationRequest{Domain: own(e.Domain), Data: e.attData()}
 			setAttID(r, name, key)
+			r = e.malform(r)
 			req.Requests = append(req.Requests, r)
 		}
 		many(api.SignBeaconAttestations(ctx, req))
